@@ -357,8 +357,7 @@ func (fx *FuncCtx) run() {
 			}
 			ce := fx.clauseEv(pst, fx.decl.Body.Lbrace+1, r.vals)
 			t := ce.boolOf(ce.ev(en.Expr), en.Expr)
-			ob := fx.oblige("post", fmt.Sprintf("post.%s@ret%d", lbl, r.ord), r.pos, r.st.pc, t, "postcondition at return: "+en.Text)
-			_ = ob
+			fx.obligeSplit("post", fmt.Sprintf("post.%s@ret%d", lbl, r.ord), r.pos, r.st.pc, t, "postcondition at return: "+en.Text)
 		}
 	}
 	// vacuity: the end of each return path must be reachable, and false must not be provable at entry
